@@ -12,6 +12,11 @@ def go_translator(cmd_name, gen_rel, args=None):
         r = subprocess.run(["go", "run", "./cmd/" + cmd_name, REPO] + (args or []),
                            cwd=os.path.join(VERIF, "translators"), env=env, capture_output=True, text=True)
         if r.returncode != 0:
+            # do not let a stale generated file stand in for the current source
+            try:
+                os.remove(os.path.join(LEAN, gen_rel))
+            except FileNotFoundError:
+                pass
             raise TieBroken(cmd_name, "translator %s: source no longer has the expected shape:\n%s" % (cmd_name, r.stderr[-2000:]))
         changed = write_if_changed(os.path.join(LEAN, gen_rel), r.stdout)
         ctx.log("translator %s -> %s (%s)" % (cmd_name, gen_rel, "changed" if changed else "unchanged"))
